@@ -131,7 +131,7 @@ _RE_COV = re.compile(r"^<(\w+) line \d+, col \d+ to line \d+, col \d+ of module 
 
 def tlc(module, cfg=None, env=None, workers="auto", simulate=None, depth=None, seed=None,
         timeout=600, coverage=False, deadlock=None, extra=None, xmx="6g", dfs=False, metaroot=None,
-        dump=None):
+        dump=None, cwd=None):
     """Run TLC on SPEC/<module>.tla with SPEC/<cfg>.cfg.  Returns TlcResult.
     Emission protocol: the spec prints strings that start with '@@' followed by JSON."""
     r = TlcResult()
@@ -160,7 +160,7 @@ def tlc(module, cfg=None, env=None, workers="auto", simulate=None, depth=None, s
     if extra:
         cmd += extra
     cmd += [module if module.endswith(".tla") else module + ".tla"]
-    rc, out, err = sh(cmd, timeout=timeout, env=env, cwd=SPEC)
+    rc, out, err = sh(cmd, timeout=timeout, env=env, cwd=cwd or SPEC)
     shutil.rmtree(meta, ignore_errors=True)
     r.rc = rc
     text = out.decode("utf-8", "replace")
